@@ -16,6 +16,8 @@ pub enum T {
     Pub { qos: u8, id: u16, len: u16, topic: u8, alias: u16 },
     /// PUBLISH delivered in two writes (header + half, rest)
     PubSplit { qos: u8, id: u16, len: u16 },
+    /// PUBLISH delivered in three writes (header + first bytes, middle piece, final piece)
+    PubSplit3 { qos: u8, id: u16, len: u16 },
     /// PUBLISH of which only the first part is ever sent
     PubPartial { qos: u8, id: u16, len: u16 },
     /// PUBREL for id; 0 = oldest QoS 2 publish that was sent and not yet released
@@ -56,6 +58,8 @@ pub struct Sent {
     pub rest: Vec<u8>,
     pub complete_step: Option<u64>,
     pub tag: u8,
+    /// PubSplit3: the middle piece has been delivered
+    pub half: bool,
 }
 
 #[derive(Clone, Debug)]
@@ -155,7 +159,7 @@ impl In {
                 let b = enc(&p);
                 (Some(p), b, vec![], tag)
             }
-            T::PubSplit { qos, id, len } | T::PubPartial { qos, id, len } => {
+            T::PubSplit { qos, id, len } | T::PubSplit3 { qos, id, len } | T::PubPartial { qos, id, len } => {
                 let id = if qos > 0 { idsel(self, id) } else { 0 };
                 let payload: Vec<u8> = (0..len).map(|i| tag.wrapping_add((i % 7) as u8) | 0x80).collect();
                 let p = rf::publish(qos, id, "t", &payload);
@@ -270,7 +274,7 @@ impl In {
     fn send_template(&mut self, t: T) {
         let (pkt, first, rest, tag) = self.build(t);
         let done = rest.is_empty() && !matches!(t, T::PubPartial { .. });
-        self.sent.push(Sent { t, pkt, step: step(), rest, complete_step: if done { Some(step()) } else { None }, tag });
+        self.sent.push(Sent { t, pkt, step: step(), rest, complete_step: if done { Some(step()) } else { None }, tag, half: false });
         if self.cfg.cork {
             self.corked.extend_from_slice(&first);
         } else {
@@ -445,8 +449,16 @@ impl Scenario for In {
             }
             Ev::Rest => {
                 let s = self.sent.last_mut().unwrap();
-                let rest = std::mem::take(&mut s.rest);
-                s.complete_step = Some(step());
+                let rest = if matches!(s.t, T::PubSplit3 { .. }) && !s.half && s.rest.len() > 1 {
+                    s.half = true;
+                    let k = s.rest.len() / 2;
+                    s.rest.drain(..k).collect()
+                } else {
+                    std::mem::take(&mut s.rest)
+                };
+                if s.rest.is_empty() {
+                    s.complete_step = Some(step());
+                }
                 if self.cfg.cork {
                     self.corked.extend_from_slice(&rest);
                 } else {
